@@ -22,12 +22,14 @@ EXTENDS Exec, Json, IOUtils, TLCExt
 Rec == ndJsonDeserialize(IOEnv.TRACE)
 N == Len(Rec)
 
-CONSTANT TraceDevs     \* keys of recorded known findings whose deviation actions are enabled
+CONSTANTS TraceDevs,    \* keys of recorded known findings whose deviation actions are enabled
+          CheckEngines  \* also demand that the compiled engines' recorded results agree (C03, C04)
 
 VARIABLES l,
-          devs       \* number of deviation steps taken so far (reported, never hidden)
+          devs,      \* number of deviation steps taken so far (reported, never hidden)
+          rundevs    \* ... of which in the current run
 NoFszT == [dflt |-> 256, tab |-> <<>>]
-tvars == <<mvars, l, devs>>
+tvars == <<mvars, l, devs, rundevs>>
 
 Ev(k) == Rec[k]
 IsEv(k, name) == k <= N /\ Ev(k).e = name
@@ -72,6 +74,7 @@ TraceStart ==
         /\ s.regs[2] = R1ForBases(c, TraceEnv(s).base)
         /\ s.regs[11] = AddN(s.stack, StackSize)
   /\ l' = l + 1
+  /\ rundevs' = 0
   /\ UNCHANGED devs
 
 \* the answer of the environment to a helper call made by this step: taken from the trace
@@ -99,7 +102,7 @@ TraceStepWith(D) ==
      ELSE /\ ~HelperFollows
           /\ l' = l + 1
 
-TraceStep == TraceStepWith({}) /\ UNCHANGED devs
+TraceStep == TraceStepWith({}) /\ UNCHANGED <<devs, rundevs>>
 
 \* Named deviation action (DESIGN.md 7.4): the pinned interpreter zero-extends the immediate of
 \* the 64-bit jeq/jne/jgt/jge/jlt/jle.  Enabled only if that finding is recorded (TraceDevs), only
@@ -114,7 +117,7 @@ TraceStepDev_JmpImmZeroExt ==
   /\ "jmp_imm_zext" \in TraceDevs
   /\ JmpDevMatters
   /\ TraceStepWith({"jmp_imm_zext"})
-  /\ devs' = devs + 1
+  /\ devs' = devs + 1 /\ rundevs' = rundevs + 1
 
 \* the run is over: the machine must have stopped in the same way, with the same memory
 SameMem(e) ==
@@ -122,21 +125,30 @@ SameMem(e) ==
   /\ (env.c.vm = "mbuff" => e.mbuf = mem[R_MBUF])
   /\ \A k \in 1..Len(e.allow) : e.allow[k] = mem[3 + k]
 
+\* C03 / C04 (direction A): when the specification judges the run defined, a compiled engine that
+\* was run on the same program and input returned the same value and left the same bytes
+EngineAgrees(x) ==
+  x.k = "skipped" \/ ~defd \/
+  rundevs > 0 \/            \* the interpreter took a recorded deviation step in this run (reported as such)
+  (/\ x.k = "ok" /\ x.val = status.val /\ x.pkt = mem[R_PKT]
+   /\ (env.c.vm = "mbuff" => x.mbuf = mem[R_MBUF]))
+
 TraceEnd ==
   /\ IsEv(l, "end")
   /\ LET e == Ev(l) IN
      \/ /\ e.k = "ok" /\ status.k = "ok" /\ e.val = status.val /\ SameMem(e)
+        /\ (CheckEngines => (EngineAgrees(e.jit) /\ EngineAgrees(e.cl)))
      \/ /\ e.k = "err" /\ status.k = "err" /\ SameMem(e)
         /\ (e.class = "budget") = (status.class = "budget")
      \* the hook refused the next instruction: the machine is at its budget
      \/ /\ e.k = "err" /\ e.class = "budget" /\ Running
         /\ env.budget > 0 /\ steps >= env.budget /\ SameMem(e)
   /\ l' = l + 1
-  /\ UNCHANGED <<mvars, devs>>
+  /\ UNCHANGED <<mvars, devs, rundevs>>
 
 TraceInit ==
   /\ l = 1
-  /\ devs = 0
+  /\ devs = 0 /\ rundevs = 0
   /\ TLCSet(1, 1) /\ TLCSet(2, 0)
   /\ env = [prog |-> <<>>, base |-> <<>>, helpers |-> {}, fsz |-> NoFszT, budget |-> 0, dev |-> {}, c |-> [vm |-> "none"]]
   /\ mem = <<>> /\ pc = 0 /\ reg = [r \in 0..10 |-> Zero] /\ rt = [r \in 0..10 |-> "u"]
